@@ -163,6 +163,8 @@ class KRun:
         elif kind in ("deliver", "timeout"):
             L = self.scope_label.get(id(who))
             self.emit(f"run {kind} {'?' if L is None else L}", "ok")
+            if L is not None:
+                self.hist("handle", kind, L)
         elif kind == "taskdone":
             T = self.task_label.get(id(who))
             self.emit(f"run taskdone {'?' if T is None else T}", "ok")
